@@ -4,6 +4,7 @@
 import Jb.Proofs.Engine
 import Jb.Proofs.Shift
 import Jb.Proofs.GvShift
+import Jb.Proofs.HalfTone
 
 set_option linter.unusedSectionVars false
 
@@ -76,5 +77,29 @@ theorem trajectory_shift_with_gv (windows : List (List K)) (obs : List (List (Me
     (hsw : ∀ g sw, gv = some (g, sw) → (filterBy (expand sw durs) mask).length = T) :
     m'.par gv vi gw durs mask = (m.par gv vi gw durs mask).map (· + h) :=
   par_shift windows obs T hstatic hlen hobs hedge hnonneg hpos hsum h m m' hm hm' gv vi gw durs mask hmask hsw
+
+/-- **C15, end to end at model level.** On the log-F0 stream `MlpgAdjust::create` after
+    `apply_additional_half_tone(h)` returns, on every voiced frame, the trajectory without the shift plus
+    `h·ln2/12` — through the maximum-likelihood solution and the GV iteration — as long as no state mean
+    reaches the 20 Hz..20 kHz clamp (`Unclamped`); unvoiced frames keep the no-data marker; the number of
+    frames is the same. -/
+theorem halftone_moves_the_trajectory (gw thr : K) (s : StreamIn K) (durs : List Nat) (h : K) (hh : h ≠ 0)
+    (hv : s.vectorLength = 1) (hwf : StreamWF s) (hstatic : s.windows.head? = some [1])
+    (hsum : ∀ w ∈ s.windows.tail, w.sum = 0)
+    (hd : durs.length ≤ s.stream.length)
+    (hgv : ∀ g sw, s.gv = some (g, sw) → durs.length ≤ sw.length)
+    (hnonneg : ∀ st ∈ s.stream, ∀ p ∈ st.params, 0 ≤ (withIvar p).vari)
+    (hdflt : 0 ≤ (withIvar (⟨0, 0⟩ : MeanVari K)).vari)
+    (hpos : ∀ st ∈ s.stream, 0 < (withIvar (st.params.getD 0 ⟨0, 0⟩)).vari)
+    (hu : Unclamped s.stream h) :
+    ∃ traj traj',
+      mlpgCreate gw thr s durs = .ok traj ∧
+      mlpgCreate gw thr { s with stream := applyHalfTone s.stream h } durs = .ok traj' ∧
+      traj'.length = traj.length ∧
+      ∀ f, f < traj.length →
+        traj'.getD f [] =
+          if (maskCreate s.stream thr durs).getD f false then (traj.getD f []).map (· + h * Consts.halfTone)
+          else traj.getD f [] :=
+  mlpgCreate_halfTone gw thr s durs h hh hv hwf hstatic hsum hd hgv hnonneg hdflt hpos hu
 
 end Jb.C15
